@@ -182,7 +182,7 @@ def main(tier):
             ('CApi', life_cfg, {'workers': 4, 'timeout': 2400}),
             ('CApi', 'CApi_lifesim.cfg', {'simulate': 150 if quick else 3000, 'depth': 60}),
             ('CApi', 'CApi_ops.cfg', {'simulate': 60 if quick else 1500, 'depth': 40, 'timeout': 2400})]
-    jobs += [('CApi', 'CApi_bad_%s.cfg' % b, {}) for b in BAD]
+    jobs += [('CApi', 'CApi_bad_%s.cfg' % b, {'extra': ['-noGenerateSpecTE']}) for b in BAD]
     t0 = time.time()
     res = tlc_jobs(jobs)
     vf.log('[C20] TLC: %d runs in %.0fs' % (len(jobs), time.time() - t0))
